@@ -221,7 +221,7 @@ fn commodities_of(es: &[Entry]) -> Vec<usize> {
     let mut out = std::collections::BTreeSet::new();
     for e in es {
         match e {
-            Entry::Format(c, _) => {
+            Entry::Format(c, _, _) => {
                 out.insert(*c);
             }
             Entry::Comment => {}
@@ -263,13 +263,13 @@ fn post(account: usize, amount: Option<VE>) -> Posting {
 fn hold(date: i32, ps: &[(usize, i64, u32, usize)]) -> Entry {
     let mut posts: Vec<Posting> = ps.iter().map(|(a, m, s, c)| post(*a, Some(lit(*m, *s, *c)))).collect();
     posts.push(post(EQUITY_ACCT, None));
-    Entry::Txn(Txn { date, effective: None, posts })
+    Entry::Txn(Txn { date, effective: None, posts, head: Head::default() })
 }
 /// a rate x -> y on `date`: `Equity:Opening  0 X @ r Y` (the form the C10 cases use)
 fn quote(date: i32, x: usize, m: i64, s: u32, y: usize) -> Entry {
     let mut p = post(EQUITY_ACCT, Some(lit(0, 0, x)));
     p.cost = Some(Exch::Rate(lit(m, s, y)));
-    Entry::Txn(Txn { date, effective: None, posts: vec![p, post(EQUITY_ACCT, None)] })
+    Entry::Txn(Txn { date, effective: None, posts: vec![p, post(EQUITY_ACCT, None)], head: Head::default() })
 }
 fn nonzero(r: &mut Rng) -> (i64, u32) {
     let scale = *r.pick(&[0u32, 0, 2, 3]);
@@ -318,7 +318,7 @@ fn failing_txn(r: &mut Rng, f: Failing, date: i32, k: usize) -> Entry {
             vec![p, post(EQUITY_ACCT, None)]
         }
     };
-    Entry::Txn(Txn { date, effective: None, posts })
+    Entry::Txn(Txn { date, effective: None, posts, head: Head::default() })
 }
 
 /// a ledger with several independent failures and the commands to run on it
@@ -799,7 +799,8 @@ pub fn run(o: &Opts) {
     let n_multi = if replay { 0 } else if o.thorough { 160 } else { 32 };
     let mut rm = Rng::new(o.seed, 1130);
     for k in 0..n_multi {
-        let (es, cmds, tag) = gen_multi_failure(&mut rm, k);
+        let (mut es, cmds, tag) = gen_multi_failure(&mut rm, k);
+        vary_shapes_nth(&mut es, k);
         ledgers.push((es, tag, cmds, n_runs.max(8)));
     }
     for (idx, (es, tag, cmds, runs)) in ledgers.iter().enumerate() {
